@@ -311,3 +311,96 @@ def read_vtk_polyhedron(path):
         assert ys[k] == 3
         f.append((ys[k + 1], ys[k + 2], ys[k + 3])); k += 4
     return v, f
+
+
+# ------------------------------------------------------------------------------ refined cells (unused slots)
+def refine_line_of(case):
+    """request of harness/h_forces.cpp that runs the real refine_mesh(l_min, l_max) before computing the forces"""
+    w = line_of(case).split()
+    return " ".join(["refine", fhex(case["l_min"]), fhex(case["l_max"]), str(int(case["swap"]))] + w[1:])
+
+
+def case_of_refine_line(line):
+    w = line.split()
+    c = case_of_line(" ".join(["forces"] + w[4:]))
+    c["l_min"], c["l_max"], c["swap"] = unhex(w[1]), unhex(w[2]), int(w[3])
+    return c
+
+
+def parse_refined(line):
+    """okr answer -> dict(P,V,A,At, used_nodes, v (slot positions), slots [(used,a,b,c,ty)], edges [(n1,n2,f1,f2)],
+    forces{term: per node slot}) or None"""
+    w = line.split()
+    if len(w) < 8 or w[0] != "okr":
+        return None
+    try:
+        nn, nf, ne = int(w[1]), int(w[2]), int(w[3])
+        if len(w) != 8 + 4 * nn + 5 * nf + 4 * ne + 15 * nn:
+            return None
+        out = {"unchanged": True, "P": unhex(w[4]), "V": unhex(w[5]), "A": unhex(w[6]), "At": unhex(w[7]), "forces": {}}
+        k = 8
+        out["used_nodes"], out["v"] = [], []
+        for _ in range(nn):
+            out["used_nodes"].append(w[k] == "1")
+            out["v"].append([unhex(w[k + 1]), unhex(w[k + 2]), unhex(w[k + 3])]); k += 4
+        out["slots"] = []
+        for _ in range(nf):
+            out["slots"].append((w[k] == "1", int(w[k + 1]), int(w[k + 2]), int(w[k + 3]), int(w[k + 4]))); k += 5
+        out["edges"] = []
+        for _ in range(ne):
+            out["edges"].append((int(w[k]), int(w[k + 1]), int(w[k + 2]), int(w[k + 3]))); k += 4
+        for t in TERMS:
+            fl = []
+            for _ in range(nn):
+                fl.append([unhex(w[k]), unhex(w[k + 1]), unhex(w[k + 2])]); k += 3
+            out["forces"][t] = fl
+        return out
+    except ValueError:
+        return None
+
+
+def live_case(case, ref):
+    """the refined cell as a case for the oracles: node slots as nodes (unused ones carry no face), used faces only"""
+    f, ftype = [], []
+    for (u, a, b, c, ty) in ref["slots"]:
+        if u:
+            f.append((a, b, c)); ftype.append(ty)
+    c2 = dict(case)
+    c2["v"], c2["f"], c2["ftype"] = ref["v"], f, ftype
+    return c2
+
+
+def slots_line_of(case, ref):
+    """request of the model driver: the live mesh dumped by the harness, unused slots marked"""
+    w = ["slots", str(len(ref["v"])), str(len(ref["slots"])), str(len(ref["edges"])), str(len(case["ft"]))]
+    w += [fhex(case["p"][k]) for k in PARAM_KEYS]
+    for (t, b) in case["ft"]:
+        w += [fhex(t), fhex(b)]
+    for p in ref["v"]:
+        w += [fhex(p[0]), fhex(p[1]), fhex(p[2])]
+    for (u, a, b, c, ty) in ref["slots"]:
+        w += ["1" if u else "0", str(a), str(b), str(c), str(ty)]
+    for e in ref["edges"]:
+        w += [str(z) for z in e]
+    return " ".join(w)
+
+
+def edge_set_problem(ref):
+    """None when the stored edge set is exactly the set of sides of the used faces, each edge between two used
+    faces that have both its nodes"""
+    sides = {}
+    for k, (u, a, b, c, ty) in enumerate(ref["slots"]):
+        if u:
+            for e in ((a, b), (b, c), (c, a)):
+                sides.setdefault((min(e), max(e)), []).append(k)
+    seen = set()
+    for (n1, n2, f1, f2) in ref["edges"]:
+        key = (min(n1, n2), max(n1, n2))
+        if key in seen:
+            return "edge %r stored twice" % (key,)
+        seen.add(key)
+        if f1 < 0 or f2 < 0 or sorted(sides.get(key, [])) != sorted([f1, f2]):
+            return "edge %r is stored with faces %r but the used faces having it are %r" % (key, (f1, f2), sides.get(key))
+    if seen != set(sides):
+        return "sides without a stored edge: %r" % (sorted(set(sides) - seen)[:3],)
+    return None
